@@ -7,6 +7,12 @@
   Hash functions are universally quantified parameters.
 -/
 import GocoinV.Proofs.C03
+import GocoinV.Proofs.C03Field
+import GocoinV.Proofs.C03Group
+import GocoinV.Proofs.C03Curve
+import GocoinV.Proofs.C03Ecdsa
+import GocoinV.Proofs.C03Der
+import GocoinV.Proofs.C03Schnorr
 namespace GocoinV.Props.C03
 open GocoinV GocoinV.Secp GocoinV.Model GocoinV.C03 GocoinV.Proofs.C03
 
@@ -37,15 +43,21 @@ def pkNonRes : Bytes := 2 :: zero32
 /-- ECDSA: `btc.EcdsaVerify` (model of the current code) accepts a (public key, signature, message)
     byte triple IF AND ONLY IF the key bytes are a SEC1 encoding of a curve point with coordinates
     below p, the signature container holds r, s with 1 ≤ r, s ≤ n−1, and the ECDSA equation holds.
-    Stated for every key that is not `Exceptional` (03‖x with x³+7 ≡ 0 mod p — no such x exists on
-    secp256k1, but that fact is not proved here). -/
-theorem ecdsa_accept_iff (pk sig msg : Bytes) (hex : ¬ Exceptional pk) :
+    For ALL byte strings (the key class 03‖x with x³+7 ≡ 0, on which model and SEC1 parser could
+    differ, is empty: `no_point_with_y_zero`). -/
+theorem ecdsa_accept_iff (pk sig msg : Bytes) :
     Sig.ecdsaVerify true pk sig msg = true ↔ Spec.Ecdsa.Accepts pk sig msg := by
-  rw [ecdsa_eq pk sig msg hex]; exact verify_iff pk sig msg
+  rw [ecdsa_eq pk sig msg (not_exceptional pk)]; exact verify_iff pk sig msg
 
-example : ¬ Exceptional pkX1 := by
-  rintro ⟨t, h, _⟩
-  simp [pkX1] at h
+/-- −7 is not a cube modulo p (p ≡ 1 mod 3 and (−7)^((p−1)/3) ≠ 1, evaluated by the kernel; p prime by
+    the Pratt certificate of Proofs/C08_Primes): x³ + 7 ≢ 0 for every x, so no point of secp256k1 has
+    y = 0 and no public key is `Exceptional`. -/
+theorem no_point_with_y_zero (x : Nat) : (x * x % p * x + 7) % p ≠ 0 ∧ onCurve (some (x, 0)) = false := by
+  refine ⟨curveRhs_ne_zero x, ?_⟩
+  cases h : onCurve (some (x, 0)) with
+  | false => rfl
+  | true => exact absurd rfl (onCurve_y_ne_zero x 0 h)
+
 example : Spec.Ecdsa.Accepts pkX1 sigRR msgR := by
   rw [← verify_iff]; decide +kernel
 
@@ -65,9 +77,9 @@ theorem tweak_accept_iff (qx base hash : Bytes) (parity : Bool) :
 
 /-- `XY.ParsePubkey` (current code) is strict SEC1 parsing (`Secp.parsePubkey`): same accepted set,
     same point. -/
-theorem parsePubkey_is_sec1 (pk : Bytes) (hex : ¬ Exceptional pk) :
+theorem parsePubkey_is_sec1 (pk : Bytes) :
     Sig.parsePubkey true pk = Secp.parsePubkey pk :=
-  parsePubkey_eq pk hex
+  parsePubkey_eq pk (not_exceptional pk)
 
 /-- `XY.ParseXOnlyPubkey` (current code) is BIP340 lift_x on 32-byte strings. -/
 theorem xonly_is_liftX (pk : Bytes) (h32 : pk.length = 32) :
@@ -85,26 +97,87 @@ theorem parseBytes_is_container (sig : Bytes) :
 
 /-! ### own signatures -/
 
-/-- `Signature.Sign`: whenever it succeeds, S is in [1, n/2] (low S, `IsLowS`) and R is below n.
-    -- OPEN: sign_canonical (full): additionally `sigBytes r s = some der`, `isStrictDER der` and
-    `parseBytes der = some (r, s, der.length)` for r ≠ 0 — checked on every signing case by the
-    harness (oracle fields `strict`, `lowS`) but not yet proved. -/
-theorem sign_canonical_partial (sec msg k r s recid : Nat)
-    (h : Sig.sign sec msg k = some (r, s, recid)) :
-    0 < s ∧ Sig.isLowS s = true ∧ r < n := by
-  have := sign_low sec msg k r s recid h
-  exact ⟨this.1, by simpa [Sig.isLowS] using this.2.1, this.2.2⟩
+/-- The group law of the reference curve `Base/Secp` that the signing theorems below rest on:
+    `Secp.add` is closed, commutative and associative on curve points. Proved (not assumed): `Secp.add`
+    is shown to coincide with the addition of Mathlib's `WeierstrassCurve.Affine.Point` for
+    y² = x³ + 7 over `ZMod p` (Proofs/C03Curve.lean, `rep_add`), whose `AddCommGroup` instance is
+    Mathlib's; p prime by Proofs/C08_Primes. -/
+theorem reference_curve_group_law : SecpGroupLaw := secpGroupLaw
 
-example : (Sig.sign 1 1 1).isSome = true := by decide +kernel
+/-- G has order n on the reference curve: n·G = ∞ (kernel evaluation of the reference double-and-add)
+    and d·G ≠ ∞ for 0 < d < n (n prime). -/
+theorem generator_order (d : Nat) (h0 : 0 < d) (hd : d < n) : mul n G = none ∧ mul d G ≠ none :=
+  ⟨mul_n_G, mul_G_ne_none d h0 hd⟩
 
--- OPEN: sign_verify — ∀ d m k, 0 < d < n → sign d m k = some (r, s, _) →
---   sigVerify true r s (mul d G) m = true.  Needs the group law of Base/Secp (k·(d·G) = (k·d)·G,
---   a·G + b·G = (a+b)·G, (n−a)·G = −(a·G)) and Fermat inversion modulo n, which belong to C08 and are
---   not available; checked on every signing case by the harness against the real code, the reference
---   and the model.
--- OPEN: recover_sign — recover r s m recid = some (mul d G) for the output of sign; same prerequisites.
--- OPEN: bip340_sign_matches — schnorrSign = Spec.Bip340.sign (needs |H| = 32 bytes and the nonce hash
---   below n for the `get_n_minus` branch); compared by the harness on every ssign case.
+example : 0 < 1 ∧ 1 < n := by decide
+
+/-- `Signature.Sign` + `Signature.Bytes`: whenever `Sign` succeeds with R ≠ 0, S is in [1, n/2] (low S,
+    `IsLowS`), R is in [1, n−1], `Bytes()` does not panic, its output is BIP66-strict DER, and
+    `ParseBytes` reads (R, S) back from it.
+    (R = 0 mod n is not refused by `Sign` — unlike libsecp256k1 — and `Bytes()` would then panic on
+    `r[0]`; it needs a nonce k with x(k·G) = n, which exists but is a discrete logarithm: observation.) -/
+theorem sign_canonical (sec msg k r s recid : Nat)
+    (h : Sig.sign sec msg k = some (r, s, recid)) (hr : r ≠ 0) :
+    0 < s ∧ Sig.isLowS s = true ∧ r < n ∧
+    ∃ der, Sig.sigBytes r s = some der ∧ Spec.Ecdsa.isStrictDER der = true ∧
+      (Sig.parseBytes der).map (fun t => (t.1, t.2.1)) = some (r, s) := by
+  have hl := sign_low sec msg k r s recid h
+  have hn256 : n < 2 ^ 256 := by decide
+  have hh : Sig.halfOrder < n := by decide
+  obtain ⟨der, h1, h2, h3⟩ := sigBytes_canonical r s (Nat.pos_of_ne_zero hr) (by omega) hl.1 (by omega)
+  exact ⟨hl.1, by simpa [Sig.isLowS] using hl.2.1, hl.2.2, der, h1, h2, by rw [parseBytes_eq, h3]⟩
+
+example : (Sig.sign 1 1 1).map (fun t => decide (t.1 ≠ 0)) = some true := by decide +kernel
+
+/-- Every output of `Signature.Sign` (any secret key d, message value m, nonce k) passes
+    `Signature.Verify` for the public key d·G — exactly when its R is not 0 (see `sign_canonical`
+    for that unreachable case). -/
+theorem sign_verify (d m k r s recid : Nat) (h : Sig.sign d m k = some (r, s, recid)) :
+    Sig.sigVerify true r s (mul d G) m = true ↔ r ≠ 0 := by
+  constructor
+  · intro hv hr
+    subst hr
+    simp [Sig.sigVerify] at hv
+  · exact sign_verify_core d m k r s recid h
+
+/-- At the observables of the property: for a secret key 0 < d < n, what `Sign` + `Bytes()` hand out
+    is strict DER and `btc.EcdsaVerify(compressed pubkey of d·G, DER, hash)` returns true. -/
+theorem own_signature_accepted (d k r s recid : Nat) (msg : Bytes) (hd0 : 0 < d) (hdn : d < n)
+    (h : Sig.sign d (beVal msg) k = some (r, s, recid)) (hr : r ≠ 0) :
+    ∃ der, Sig.sigBytes r s = some der ∧ Spec.Ecdsa.isStrictDER der = true ∧
+      Sig.ecdsaVerify true (ser33 (mul d G)) der msg = true :=
+  Proofs.C03.own_signature_accepted d k r s recid msg hd0 hdn h hr
+
+example : (Sig.sign 1 (beVal [1]) 1).map (fun t => decide (t.1 ≠ 0)) = some true := by decide +kernel
+
+/-- `Signature.RecoverPublicKey(hash, recid)` on an output (R, S, recid) of `Sign` returns the signer's
+    public key d·G (R ≠ 0 as above). -/
+theorem recover_sign (d k r s recid : Nat) (hb : Bytes)
+    (h : Sig.sign d (beVal hb) k = some (r, s, recid)) (hr : r ≠ 0) :
+    Sig.recoverPublicKey r s hb recid = some (mul d G) :=
+  recover_sign_core d k r s recid hb h hr
+
+/-- `secp256k1.SchnorrSign` only hands out signatures that `SchnorrVerify` accepts for the x-only
+    public key of the secret key (the code verifies before returning; any hash function). -/
+theorem schnorr_sign_verifies (H : Hash) (m sk a sig : Bytes) (h : Sig.schnorrSign H m sk a = some sig) :
+    ∃ px py, mul (beVal sk) G = some (px, py) ∧ Sig.schnorrVerify H (beBytes 32 px) sig m = true :=
+  schnorrSign_verifies H m sk a sig h
+
+/-- `secp256k1.SchnorrSign(m, sk, aux)` equals BIP340 default signing `Spec.Bip340.sign`, byte for
+    byte (same signature or both fail), for every hash function with 32-byte output and every 32-byte
+    secret key, PROVIDED the BIP340 nonce hash `rand`, read as an integer, is below n.
+    -- OPEN: bip340_sign_matches without `hk`. It is FALSE of the code as written: for rand ≥ n and odd
+    y(R), `get_n_minus(k0)` yields rand − n = k' instead of n − k', the final self-verification fails
+    and SchnorrSign returns nil where BIP340 returns a signature. With SHA-256 this needs a nonce hash
+    in [n, 2^256) (probability < 2^-127 per signature; no such input can be exhibited): observation,
+    reported in DESIGN, no counterexample theorem possible for SHA-256. -/
+theorem bip340_sign_matches_partial (H : Hash) (hH : ∀ b, (H b).length = 32) (m sk a : Bytes)
+    (hsk : sk.length = 32) (hk : beVal (signNonceHash H m sk a) < n) :
+    Sig.schnorrSign H m sk a = Spec.Bip340.sign H m sk a :=
+  schnorrSign_eq H hH m sk a hsk hk
+
+example : ∃ H : Hash, (∀ b, (H b).length = 32) ∧ beVal (signNonceHash H zero32 (zero32.take 31 ++ [1]) zero32) < n :=
+  ⟨fun _ => zero32, fun _ => (by decide : zero32.length = 32), by decide +kernel⟩
 
 /-- `btc.HMAC_Init/Write/Finalize` is RFC 2104 HMAC for every key whose length is not exactly 64
     (a 64-byte key is hashed by the Go code, used as it is by RFC 2104; RFC 6979 only uses 32-byte keys). -/
